@@ -52,7 +52,7 @@ class Ctx:
         for k in self._known:
             ms = k.get("match_any") or [k.get("match", {"__never__": 1})]
             for m in ms:
-                if all(sig.get(a) == b for a, b in m.items()):
+                if all((sig.get(a) in b) if isinstance(b, list) else (sig.get(a) == b) for a, b in m.items()):
                     return k
         return None
 
